@@ -36,6 +36,7 @@ type c06Case struct {
 	Op    string   `json:"op,omitempty"`    // set | del | move
 	Seed2 uint64   `json:"seed2,omitempty"` // second message / wrong key
 	Prim  string   `json:"prim,omitempty"`  // primitive-level case
+	Comp  bool     `json:"comp,omitempty"`  // compression stream: Base is a valid zip=DEF message with a large plaintext; no mutation
 	Reuse bool     `json:"reuse,omitempty"` // the caller reuses the buffer it parsed from (Base is a mode-"reuse" case, c05_reuse.go)
 	Calls int      `json:"calls,omitempty"` // primitive history: number of calls on ONE algorithm object with reused buffers
 	Side  string   `json:"side,omitempty"`  // history case: parsed | sender
@@ -320,6 +321,10 @@ func applyMutation(cs c06Case, m *c06Msg, t int, r *vf.Rand, other *c06Msg, othe
 }
 
 func execC06(c *vf.Ctx, d *vf.Driver, cs c06Case) {
+	if cs.Comp {
+		execC06Comp(c, d, cs)
+		return
+	}
 	if cs.Reuse {
 		execReuse(c, d, cs.Base, "c06")
 		return
@@ -468,6 +473,71 @@ func execC06(c *vf.Ctx, d *vf.Driver, cs c06Case) {
 		c.Count("accepted-unchanged-authenticated-data/" + cs.Mut + "/" + cs.Seg + cs.Param)
 	}
 	c.Sample(cs)
+}
+
+// ---- compression stream ------------------------------------------------------------------------------
+
+// execC06Comp: a valid, unmodified zip=DEF message with a large plaintext (sizes around plausible decompression caps;
+// highly / moderately / not compressible).  C06's statement read positively: whenever Decrypt returns a nil error the
+// plaintext IS what was encrypted — every byte and the length — and goat agrees with the model.
+func execC06Comp(c *vf.Ctx, d *vf.Driver, cs c06Case) {
+	base := cs.Base
+	var e *c05Env
+	var data []byte
+	var ser string
+	var pt []byte
+	if base.Mode == "goat" {
+		var algs []string
+		e, algs, pt, _ = c05Setup(base)
+		b := buildGoat(base, pt, e, algs, 0)
+		if !b.built {
+			c.Fail(vf.Violation{Kind: "property", Class: "c06-compression-stream-build", What: "goat refuses to build a valid compressed message: " + b.err, Case: cs})
+			return
+		}
+		data, ser = b.data, b.ser
+	} else {
+		var err error
+		e, _, data, ser, pt, err = buildIndep(base)
+		if err != nil {
+			return
+		}
+	}
+	t := base.Target
+	e.finder = c05Finder{Index: t, KeyID: fmt.Sprintf("k%d", t)}
+	c.Case("comp|"+base.key(), true)
+	c.Count("comp/" + base.PTShape[:3])
+	c.Count("comp-size/" + base.PTShape[3:])
+	c.Count("comp-ser/" + base.Ser + "/" + base.Enc)
+	e.resetTraces()
+	goat, _ := e.goatDecrypt(data, ser)
+	mod, derr := e.modelDecrypt(d, data, ser)
+	c.TraceValidated()
+	if derr != nil {
+		c.Fail(vf.Violation{Kind: "correspondence", Class: "driver-error", What: derr.Error(), Case: cs})
+		return
+	}
+	desc := fmt.Sprintf("valid unmodified %s message, zip=DEF, plaintext %s (%d bytes, compressed to %d)", base.Ser, base.PTShape, len(pt), len(jDeflate(pt)))
+	switch {
+	case goat.Tag == "panic":
+		c.Fail(vf.Violation{Kind: "property", Class: "c06-panic", What: desc + ": Decrypt panics", Case: cs, Observed: goat.String(), Required: "the plaintext"})
+	case goat.Tag == "ok" && !bytes.Equal(goat.PT, pt):
+		c.Fail(vf.Violation{Kind: "property", Class: "c06-plaintext-not-what-was-encrypted", What: desc + ": Decrypt returns a nil error and something other than the plaintext that was encrypted",
+			Case: cs, Observed: fmt.Sprintf("ok(%d bytes, equal prefix %d)", len(goat.PT), commonPrefix(goat.PT, pt)), Required: fmt.Sprintf("ok(%d bytes)", len(pt))})
+	case goat.Tag != "ok":
+		c.Fail(vf.Violation{Kind: "property", Class: "c06-base-message", What: desc + ": does not decrypt", Case: cs, Observed: goat.String(), Required: "the plaintext"})
+	}
+	if !sameResult(goat, mod) {
+		c.Fail(vf.Violation{Kind: "correspondence", Class: "c06-decrypt-model-vs-goat", What: desc + ": goat and the model disagree",
+			Case: cs, Observed: "goat " + goat.String(), Required: "model " + mod.String()})
+	}
+}
+
+func commonPrefix(a, b []byte) int {
+	n := 0
+	for n < len(a) && n < len(b) && a[n] == b[n] {
+		n++
+	}
+	return n
 }
 
 // ---- history stream: several operations on ONE *jwe.Message ---------------------------------------
@@ -1174,8 +1244,47 @@ func runC06(c *vf.Ctx) {
 		nBases *= 3
 	}
 	c.Set("rule", "per worker: bases x (unmodified + random single edits); exhaustive single-character substitution of every position of every segment for some bases")
+	// compression stream: every (size, compressibility) point; quick: one sampled (mode, alg, enc, serialization) per point,
+	// thorough: one algorithm per family x {A128GCM, A256CBC-HS512} x {compact, json} (the largest sizes sampled)
+	var compJobs []c06Case
+	{
+		r := c.R.Fork()
+		for _, sh := range c05CapShapes(!c.Quick()) {
+			type combo struct{ alg, enc, ser string }
+			var combos []combo
+			for _, alg := range c05ZipAlgs {
+				for _, enc := range []string{"A128GCM", "A256CBC-HS512"} {
+					for _, ser := range []string{"compact", "json"} {
+						combos = append(combos, combo{alg, enc, ser})
+					}
+				}
+			}
+			var n int
+			fmt.Sscanf(sh[3:], "%d", &n)
+			if c.Quick() {
+				combos = []combo{vf.Pick(r, combos), vf.Pick(r, combos)}
+			} else if n >= 1000000 {
+				combos = []combo{vf.Pick(r, combos), vf.Pick(r, combos), vf.Pick(r, combos)}
+			}
+			for _, x := range combos {
+				mode := "indep"
+				if r.Intn(3) == 0 && !jIsECDH(x.alg) {
+					mode = "goat"
+				}
+				compJobs = append(compJobs, c06Case{Comp: true, Base: genC05(r, mode, x.alg, x.enc, true, x.ser, sh)})
+			}
+		}
+	}
+	compCh := make(chan c06Case, len(compJobs))
+	for _, j := range compJobs {
+		compCh <- j
+	}
+	close(compCh)
 	c.Parallel(0, true, func(w int, r *vf.Rand, d *vf.Driver) {
 		t0 := time.Now()
+		for j := range compCh {
+			execC06(c, d, j)
+		}
 		defer func() { c.Note("worker %d: %.0fs", w, time.Since(t0).Seconds()) }()
 		for i := 0; i < nBases; i++ {
 			base := genC06Base(r)
